@@ -31,9 +31,10 @@ Fixpoint s_ok (s : sspec) : wf_s s -> sec_ok (emit_s s)
 with f_ok (f : fspec) : wf_f f -> file_ok_b (is_big f) (emit_f f)
 with v_ok (v : vspec) : wf_v v -> vol_ok (emit_v v).
 Proof.
-  - destruct s as [t body|g attrs extra payload|p|build p|t ops|v]; cbn [wf_s emit_s FfsGrammar.wf_s];
+  - destruct s as [t body|t body|g attrs extra payload|p|build p|t ops|v]; cbn [wf_s emit_s FfsGrammar.wf_s];
       unfold in_range; intros W.
     + destruct W as (A & B & C & D). apply sec_ok_leaf; auto.
+    + destruct W as (A & B & C & D & E). apply sec_ok_leaf_large; auto.
     + destruct W as (A & B & C & D & E & F & G & H). apply sec_ok_guid_opaque; auto.
     + destruct W as (A & B & C & D). apply sec_ok_ui; auto.
     + destruct W as (A & B & C & D & E). apply sec_ok_version; auto.
@@ -117,8 +118,9 @@ Fixpoint wfb_s_sound (s : sspec) : wfb_s u2s s2u s = true -> wf_s u2s s2u s
 with wfb_f_sound (f : fspec) : wfb_f u2s s2u f = true -> wf_f u2s s2u f
 with wfb_v_sound (v : vspec) : wfb_v u2s s2u v = true -> wf_v u2s s2u v.
 Proof.
-  - destruct s as [t body|g attrs extra payload|p|build p|t ops|v]; cbn [wfb_s wf_s]; unfold rng, in_range; intros H;
+  - destruct s as [t body|t body|g attrs extra payload|p|build p|t ops|v]; cbn [wfb_s wf_s]; unfold rng, in_range; intros H;
       split_andb H.
+    + repeat split; auto; lia.
     + repeat split; auto; lia.
     + repeat match goal with |- _ /\ _ => split end; auto; try lia.
     + apply bytes_eqb_eq in H. repeat split; auto; lia.
